@@ -1,4 +1,5 @@
 pub mod bytes;
+pub mod ddquery;
 pub mod kind;
 pub mod path;
 pub mod timez;
